@@ -142,7 +142,7 @@ type frameBuilder struct {
 }
 
 func computeFrames(P *Program, S *SpecSet) *FrameInfo {
-	info := &FrameInfo{mods: map[*ssa.Function]map[string]bool{}, restores: map[*ssa.Function]map[string]bool{}, locs: map[*ssa.Function]map[string]*locSet{}}
+	info := &FrameInfo{mods: map[*ssa.Function]map[string]bool{}, restores: map[*ssa.Function]map[string]bool{}, locs: map[*ssa.Function]map[string]*locSet{}, reads: map[*ssa.Function]map[string]bool{}, impure: map[*ssa.Function]bool{}}
 	ng := &Gen{P: P, S: S, heapSort: map[string]string{}, decl: map[string]string{}, globals: map[string]bool{}, typeIDs: map[string]int{}, strLits: map[string]string{}, cur: map[string]string{}, allMods: map[string]bool{}, blockMod: map[int]map[string]bool{}, oblSeen: map[string]int{}}
 	ng.curBlk = -1
 	fb := &frameBuilder{P: P, S: S, ng: ng, info: info, calls: map[*ssa.Function][]*ssa.Function{}, recs: map[*ssa.Function][]callRec{}, static: map[*ssa.Function][]*ssa.Function{}, impls: map[string][]*ssa.Function{}}
@@ -206,6 +206,25 @@ func computeFrames(P *Program, S *SpecSet) *FrameInfo {
 					}
 					for _, n := range cl.Names {
 						info.restores[fn]["G."+n] = true
+					}
+				}
+			}
+		}
+	}
+	// read sets and purity (for "a pure in-repo function is a function of its arguments and of what it reads")
+	for _, fn := range all {
+		fb.directReads(fn)
+	}
+	for changed := true; changed; {
+		changed = false
+		for _, fn := range all {
+			for _, cal := range fb.static[fn] {
+				if info.impure[cal] && !info.impure[fn] {
+					info.impure[fn], changed = true, true
+				}
+				for n := range info.reads[cal] {
+					if !info.reads[fn][n] {
+						info.reads[fn][n], changed = true, true
 					}
 				}
 			}
@@ -534,6 +553,86 @@ func (fb *frameBuilder) direct(fn *ssa.Function) {
 		}
 	}
 	_ = token.NoPos
+}
+
+// directReads: heaps loaded from directly, and whether the function does anything that makes its
+// result depend on more than arguments and loads (calls outside the repository or through
+// interfaces / function values, stores, allocation, channels, goroutines, defers, panics).
+func (fb *frameBuilder) directReads(fn *ssa.Function) {
+	ng := fb.ng
+	info := fb.info
+	info.reads[fn] = map[string]bool{}
+	ng.fn = fn
+	if len(fn.FreeVars) > 0 || fn.Recover != nil {
+		info.impure[fn] = true
+	}
+	for _, b := range fn.Blocks {
+		for _, in := range b.Instrs {
+			switch v := in.(type) {
+			case *ssa.UnOp:
+				if v.Op == token.MUL {
+					for _, n := range fb.storeNames(v.X) {
+						info.reads[fn][n] = true
+					}
+				} else if v.Op == token.ARROW {
+					info.impure[fn] = true
+				}
+			case *ssa.Lookup:
+				if mt, ok := v.X.Type().Underlying().(*types.Map); ok {
+					has, val := ng.mapHeaps(mt)
+					info.reads[fn][has], info.reads[fn][val] = true, true
+				}
+			case *ssa.Range, *ssa.Next:
+				// map iteration order is not a function of the state
+				if r, ok := v.(*ssa.Range); ok {
+					if _, isMap := r.X.Type().Underlying().(*types.Map); isMap {
+						info.impure[fn] = true
+					}
+				}
+			case *ssa.Store, *ssa.MapUpdate, *ssa.Alloc, *ssa.MakeMap, *ssa.MakeSlice, *ssa.MakeClosure, *ssa.MakeChan,
+				*ssa.Send, *ssa.Select, *ssa.Go, *ssa.Defer, *ssa.Panic, *ssa.MakeInterface, *ssa.TypeAssert:
+				if al, ok := v.(*ssa.Alloc); ok && !al.Heap {
+					// a local that does not escape; loads from it are covered by the cell heap reads
+					continue
+				}
+				if st, ok := v.(*ssa.Store); ok && baseIsLocalAlloc(st.Addr) {
+					continue
+				}
+				info.impure[fn] = true
+			case *ssa.Call:
+				c := v.Common()
+				if bi, ok := c.Value.(*ssa.Builtin); ok {
+					switch bi.Name() {
+					case "len", "cap":
+						if mt, ok := c.Args[0].Type().Underlying().(*types.Map); ok {
+							has, _ := ng.mapHeaps(mt)
+							info.reads[fn][has] = true
+						}
+					default:
+						info.impure[fn] = true
+					}
+					continue
+				}
+				if cal := c.StaticCallee(); cal != nil && inRepoFn(cal) && len(cal.Blocks) > 0 {
+					continue // through fb.static
+				}
+				info.impure[fn] = true
+			}
+		}
+	}
+}
+
+// deterministic reports whether fn is a function of its arguments and its read set.
+func (f *FrameInfo) deterministic(fn *ssa.Function) ([]string, bool) {
+	if f.impure[fn] || len(f.mods[fn]) > 0 {
+		return nil, false
+	}
+	var rs []string
+	for n := range f.reads[fn] {
+		rs = append(rs, n)
+	}
+	sort.Strings(rs)
+	return rs, true
 }
 
 // implsOf: in-repo methods that an interface-method invoke may reach.
